@@ -40,6 +40,10 @@ func endErr(kind string) error {
 		return opaqueErr{}
 	case "rst":
 		return errors.New("stream error: stream ID 3; INTERNAL_ERROR; received from peer")
+	case "rst-noerror":
+		// what net/http's HTTP/2 transport reports when the server resets the
+		// stream with NO_ERROR before the body is complete
+		return errors.New("stream error: stream ID 5; NO_ERROR; received from peer")
 	}
 	return nil
 }
@@ -498,7 +502,7 @@ func gen(t *rapid.T) Case {
 		sizes = append(sizes, 600, 3000)
 	}
 	c.Body = bodies.Gen(t, d, sizes)
-	c.Ending = rapid.SampledFrom([]string{"eof", "eof", "unexpected", "opaque", "rst"}).Draw(t, "ending")
+	c.Ending = rapid.SampledFrom([]string{"eof", "eof", "unexpected", "opaque", "rst", "rst-noerror"}).Draw(t, "ending")
 	c.Trailers = rapid.SampledFrom([]string{"natural", "natural", "always", "never", "foreign-ok"}).Draw(t, "trailers")
 	if c.Dir == "hwrite" && len(c.Body.Msgs) == 0 {
 		c.Body.Msgs = []prog.Msg{{N: 3, TLen: 10}}
